@@ -616,3 +616,6 @@ func (p *Prog) FlatFieldLoad(v ssa.Value) (FieldRef, bool) {
 	}
 	return AsFieldLoad(v)
 }
+
+// UsedAsValue reports whether h is referenced other than as the callee of a static call.
+func (p *Prog) UsedAsValue(h *ssa.Function) bool { return p.usedAsValue(h) }
